@@ -229,6 +229,31 @@ theorem rebuild_from_coords (xa : XA α) (d : Nat) (G : Nat → Axis) (hgeo : ge
       m.region.tol = xa.attrs.tol.getD defaultTol :=
   geometry_from_coords xa d G hgeo hd v0 h n hval hh hn hnames hcell hpmin hpmax hshape
 
+/-- **Import of a hand-built DataArray, values included.**  Evenly spaced coordinates on
+distinctly named axes (at least two each), none of `cell`/`pmin`/`pmax`, an integer `nvdim = k
+≥ 1`, data of shape `(*n)` (scalar) or `(*n, k)` with the `vdims` axis last, labels absent or
+`k` distinct strings: the import succeeds, the mesh spans half a step beyond the outermost
+coordinates with one cell per coordinate, every value sits at its own cell and component, the
+dtype tag is kept, the labels are the coordinate's or the defaults. -/
+theorem import_hand_built (xa : XA α) (d : Nat) (G : Nat → Axis) (hgeo : geo xa = tab d G) (hd : 0 < d)
+    (v0 h : Nat → Rat) (n : Nat → Nat)
+    (hval : ∀ a, a < d → (G a).values = tab (n a) fun j => v0 a + (j : Rat) * h a)
+    (hh : ∀ a, a < d → 0 < h a) (hn : ∀ a, a < d → 2 ≤ n a)
+    (hnames : hasDup (tab d fun a => (G a).name) = false)
+    (hcell : xa.attrs.cell = none) (hpmin : xa.attrs.pmin = none) (hpmax : xa.attrs.pmax = none)
+    (k : Nat) (hk : 1 ≤ k) (hnv : xa.attrs.nvdim = some (.int k)) (hvd : 1 < k → "vdims" ∈ xa.dims)
+    (hshape : xa.data.shape = tab d n ++ (if 1 < k then [k] else []))
+    (hlab : ∀ l, xa.vdimsCoord = some l → l.length = k ∧ hasDup l = false) :
+    ∃ g, fromXarray (.dataArray xa) = .ok g ∧
+      g.mesh.region.pmin = (tab d fun a => v0 a - h a / 2) ∧
+      g.mesh.region.pmax = (tab d fun a => v0 a + ((n a : Rat) - 1) * h a + h a / 2) ∧
+      g.mesh.n = tab d n ∧ g.mesh.region.dims = (tab d fun a => (G a).name) ∧ g.nvdim = k ∧
+      g.data.shape = tab d n ++ [k] ∧
+      (∀ i, inRange (tab d n ++ [k]) i = true → g.data.get i = xa.data.get (if 1 < k then i else i.dropLast)) ∧
+      g.dtype = xa.dtype ∧
+      g.vdims = (match xa.vdimsCoord with | some l => some l | none => Fld.defaultVdims k) :=
+  import_hand_built_ok xa d G hgeo hd v0 h n hval hh hn hnames hcell hpmin hpmax k hk hnv hvd hshape hlab
+
 /-- the importer is: component-count checks, then these geometry steps, then `Field(…)` -/
 theorem import_factors (xa : XA α) :
     fromXarray (.dataArray xa) =
@@ -314,6 +339,21 @@ example : (fromXarray (.dataArray (eraseGeom true false false (exported exF "f" 
     = none := by decide +kernel
 example : (fromXarray (.dataArray (eraseGeom false true true (exported exF "f" .none)))).toOption.map (fun g => g.mesh)
     = some { exF.mesh with bc := "" } := by decide +kernel
+/-- `import_hand_built` applies to `exHand` (default index 0,1,2 on x; t = 10, 10.5; two
+components): mesh from (-½, 9¾) to (2½, 10¾), 3×2 cells -/
+example : ∃ g, fromXarray (.dataArray exHand) = .ok g ∧ g.mesh.region.pmin = [-1/2, 39/4] ∧
+    g.mesh.region.pmax = [5/2, 43/4] ∧ g.mesh.n = [3, 2] ∧ g.vdims = some ["x", "y"] := by
+  obtain ⟨g, hg, h1, h2, h3, -, -, -, -, -, h4⟩ :=
+    import_hand_built exHand 2 (fun a => (geo exHand).getD a default) (by decide +kernel) (by decide)
+      (fun a => [0, 10].getD a 0) (fun a => [1, 1/2].getD a 0) (fun a => [3, 2].getD a 0)
+      (by decide +kernel) (by decide +kernel) (by decide) (by decide +kernel) rfl rfl rfl 2 (by decide) rfl
+      (fun _ => by decide) (by decide) (fun l h => by cases h)
+  refine ⟨g, hg, ?_, ?_, ?_, ?_⟩
+  · rw [h1]; decide +kernel
+  · rw [h2]; decide +kernel
+  · rw [h3]; decide
+  · rw [h4]; decide
+
 /-- D25 witness: coordinates 0, 1 nm, 5 nm are accepted and give a 3-cell mesh of 2.5 nm cells
 from -1.25 nm to 6.25 nm; the same coordinates in metres are rejected -/
 example : (fromXarray (.dataArray exNm)).toOption.map (fun g => (g.mesh.region.pmin, g.mesh.region.pmax, g.mesh.n))
